@@ -132,6 +132,10 @@ def run_impl(c):
             ok = ok and np.array_equal(src, before) and src.dtype == before.dtype
             again = _build(c, src)
             ok = ok and np.array_equal(again.data, data) and not (data.size and np.shares_memory(again.data, data))
+            # the collection iterated BEFORE any signal was indexed: the same signals
+            it = list(again.signals)
+            ok = ok and len(it) == n and all(np.array_equal(it[i].data, again.data[:, n - 1 - i]) and it[i].signal_index == i for i in range(n))
+            ok = ok and all(np.array_equal(again.signals[i].data, again.data[:, n - 1 - i]) for i in range(n))
         rows = [[int(x) for x in row] for row in data.tolist()]
         # signals[i].data is that column of the waveform as it is NOW: read again through the same signal objects after
         # the window shrank and after samples were appended
